@@ -29,6 +29,9 @@
                              — sliced data are the source's at the recorded indices, any rank.
   * `crosses_iff`, `mask_order_irrelevant`, `crosssec_iff`
                              — the latitude scan: strictly opposite sides, any iteration order.
+  * `facesAt_meets_crossExact`, `on_parallel_not_crossing`
+                             — the exact clause `CrossExact` (decided by the driver on the very doubles the
+                               implementation compares): an end node ON the parallel is on neither side.
   * `box_iff`, `circle_iff`, `knn_spec` — region selectors as predicates on reference points.
 -/
 import UxVerif.Lemmas.Slice
@@ -1477,6 +1480,68 @@ theorem built_grid_end_to_end {n w : Nat} {t : Table} (hstd : StdForm n w t) {id
   · have := slice_eq_fresh hpre rfl
     simp only [Base.view, Base.slice, Base.N, hresh]
     exact this
+
+/-! ## 7e. the exact clause the driver evaluates on the implementation's doubles -/
+
+theorem strictlyOpposite_iff {K : Type} [Field K] [LinearOrder K] [IsStrictOrderedRing K] (c : K) (z : K × K) :
+    strictlyOpposite c z = true ↔ (z.1 < c ∧ c < z.2) ∨ (z.2 < c ∧ c < z.1) := by
+  simp [strictlyOpposite]
+
+/-- a node exactly on the parallel is on neither side: such an edge is not crossing -/
+theorem on_parallel_not_crossing {K : Type} [Field K] [LinearOrder K] [IsStrictOrderedRing K] (c : K) (z : K × K)
+    (h : z.1 = c ∨ z.2 = c) : crosses c z = false := by
+  cases hc : crosses c z with
+  | false => rfl
+  | true =>
+    rcases (crosses_iff c z).mp hc with ⟨h1, h2⟩ | ⟨h1, h2⟩ <;> rcases h with h | h <;>
+      first
+      | (rw [h] at h1; exact absurd h1 (lt_irrefl _))
+      | (rw [h] at h2; exact absurd h2 (lt_irrefl _))
+
+theorem faceHas_iff {K : Type} [Field K] [LinearOrder K] [IsStrictOrderedRing K] (p : K × K → Bool)
+    (Z : List (K × K)) (FE : Table) (N : List Nat) (f : Nat) :
+    faceHas p Z FE N f = true ↔
+      ∃ e z, Int.ofNat e ∈ Incidence.faceEdgesOf FE N f ∧ Z[e]? = some z ∧ p z = true := by
+  unfold faceHas edgesOfFace
+  rw [List.any_eq_true]
+  constructor
+  · rintro ⟨e, he, hp⟩
+    rcases List.mem_map.mp he with ⟨x, hx, rfl⟩
+    obtain ⟨hx1, hx2⟩ := List.mem_filter.mp hx
+    have h0 : 0 ≤ x := by simpa using hx2
+    have hx' : Int.ofNat x.toNat = x := by simp [Int.toNat_of_nonneg h0]
+    cases hz : Z[x.toNat]? with
+    | none => rw [hz] at hp; cases hp
+    | some z =>
+      rw [hz] at hp
+      exact ⟨x.toNat, z, by rw [hx']; exact hx1, hz, hp⟩
+  · rintro ⟨e, z, he, hz, hp⟩
+    refine ⟨e, List.mem_map.mpr ⟨Int.ofNat e, List.mem_filter.mpr ⟨he, by simp⟩, by simp⟩, ?_⟩
+    rw [hz]; exact hp
+
+/-- **the model of the scan meets the exact clause** (`CrossExact`, the predicate the driver decides
+    on the implementation's face list whenever the compared doubles are the implementation's own): for
+    every schedule of the parallel loop, with correct `edge_face_connectivity` -/
+theorem facesAt_meets_crossExact {K : Type} [Field K] [LinearOrder K] [IsStrictOrderedRing K]
+    (c : K) (Z : List (K × K)) {order : List Nat} {FE : Table} {N : List Nat} {EF : List (Int × Int)}
+    (hEF : Incidence.EdgeFaceOK FE N Z.length EF) (h : order.Perm (List.range Z.length)) :
+    CrossExact c Z FE N (facesAt c Z order EF) := by
+  refine ⟨nodup_sel _, ?_, ?_⟩
+  · intro f hf
+    rw [crosssec_iff c Z hEF h f hf, faceHas_iff]
+    constructor
+    · rintro ⟨e, z, h1, h2, h3⟩; exact ⟨e, z, h1, h2, (strictlyOpposite_iff c z).mp h3⟩
+    · rintro ⟨e, z, h1, h2, h3⟩; exact ⟨e, z, h1, h2, (strictlyOpposite_iff c z).mpr h3⟩
+  · intro g hg
+    have := edges_faces_valid hEF (crossingEdges_lt c Z order) g hg
+    exact ⟨this.1, by omega⟩
+
+/-- the exact clause is not vacuous: a triangle standing ON the parallel with its third corner above
+    (edge on the parallel) and one touching it by a corner are NOT selected, a crossing triangle is -/
+example : CrossExact (0 : Int) [(0, 0), (0, 5), (0, 5), (0, 5), (5, 5), (-3, 4), (4, 4), (4, -3)]
+    [[0, 1, 2], [3, 4, 2], [5, 6, 7]] [3, 3, 3] [2] := by decide
+example : ¬ CrossExact (0 : Int) [(0, 0), (0, 5), (0, 5), (0, 5), (5, 5), (-3, 4), (4, 4), (4, -3)]
+    [[0, 1, 2], [3, 4, 2], [5, 6, 7]] [3, 3, 3] [0, 2] := by decide
 
 /-! ## 8. /repo before the repair: proved counterexamples, and non-vacuity -/
 
